@@ -174,6 +174,13 @@ def _make_fault(kind):
     return KeyError('boom')  # not translatable
 
 
+def _disc_event(disc):
+    """'bare' = the server reports the disconnect without a close code (the key is optional in the ASGI spec)."""
+    if disc == 'bare':
+        return {'type': 'websocket.disconnect'}
+    return {'type': 'websocket.disconnect', 'code': disc}
+
+
 class Model(object):
     def __init__(self, case):
         self.cap = case['capacity']
@@ -183,7 +190,7 @@ class Model(object):
         self.delivered = [dict(e) for e in case['client']]
         self.pending_disc = None
         if case.get('disconnect') is not None:
-            self.pending_disc = {'type': 'websocket.disconnect', 'code': case['disconnect']}
+            self.pending_disc = _disc_event(case['disconnect'])
         self.disc_at = case.get('disc_at')
         self.consumed = 0
         self.pulled = 0
@@ -491,7 +498,7 @@ def run_case(case):
 
     def deliver_disc(synthetic):
         if disc is not None and not server.client_gone and not any(e['type'] == 'websocket.disconnect' for e in server.client_events):
-            server.client_events.append({'type': 'websocket.disconnect', 'code': disc})
+            server.client_events.append(_disc_event(disc))
             server.deliver_next()
         elif synthetic and not server.client_gone:
             server.client_events.append({'type': 'websocket.disconnect', 'code': 1001})
@@ -655,6 +662,7 @@ E_OPS = [
 ]
 CLIENTS = [
     ([], None),
+    ([], 'bare'),
     ([{'type': 'websocket.receive', 'text': '{"x": 1}'}], None),
     ([{'type': 'websocket.receive', 'text': 'plain'}, {'type': 'websocket.receive', 'bytes': b'\x01\x02'}], 1001),
     ([], 1000),
@@ -725,7 +733,7 @@ def _case(draw):
         ops.append(list(end))
     if not ops:
         ops = [['accept', None, None]]
-    disc = draw(st.sampled_from([None, None, 1000, 1001, 4000]))
+    disc = draw(st.sampled_from([None, None, 1000, 1001, 4000, 'bare', 'bare']))
     fail = draw(st.sampled_from([None, None, None, 0, 1, 2, 3]))
     return {
         'capacity': draw(st.sampled_from([0, 4, 4, 1])),
